@@ -4,6 +4,12 @@ import RTV.Lemmas.TimexDur
 
 Theorems about `RTV.Model.TimexResolve` run with `genCfg` (patterns, `Constants.DAYS` and the `TimexCreator`
 strings regenerated from the working tree on every check).
+
+The soundness / completeness theorems of `evaluate` below are stated against the ranges `daterangeFromTimex` /
+`timerangeFromTimex` compute for the constraints; WHAT RANGE a constraint denotes is characterised independently, on
+calendar functions, in `RTV.Props.C15Range` (`daterange_year/_month/_days/_weeks`, `timerange_hours/_minutes/
+_parts_of_day`), which also holds `duration_seconds_frac`, `evaluate_collapse_never_hangs` and the statements for
+time-of-day candidates (`evaluate_time_candidates_no_result`, `evaluate_time_candidates_sound`).
 -/
 namespace RTV.Timex
 open RTV.Py RTV.Cal
@@ -62,7 +68,8 @@ def durEntry (tv : Str) (secs : Nat) : Entry :=
 /-- C15(b) **duration_seconds** — a duration TIMEX with an integral amount `n` (fields as `Timex('PnU')` sets
 them: `Decimal(n)`), for each of the seven units, resolves to one `duration` entry whose value is the length in
 seconds `n × unit` (31536000, 2592000, 604800, 86400, 3600, 60, 1), printed as a plain integer; the products stay
-below the 28 significant digits of the default Decimal context. -/
+below the 28 significant digits of the default Decimal context.  (Fractional amounts: `duration_seconds_frac` in
+`RTV.Props.C15Range`.) -/
 theorem duration_seconds (n : Nat) (hn : numDigits (31536000 * n) ≤ 28) (ref : Date)
     (h2 : numDigits (2592000 * n) ≤ 28) (h3 : numDigits (604800 * n) ≤ 28) (h4 : numDigits (86400 * n) ≤ 28)
     (h5 : numDigits (3600 * n) ≤ 28) (h6 : numDigits (60 * n) ≤ 28) :
@@ -292,7 +299,8 @@ theorem collapse_terminates (ov : α → α → Bool) (inter : α → α → α)
 end terminates
 
 /-- `evaluate` therefore never answers `hang` through `collapse` when the fuel is at least the number of
-constraints: here for the date ranges. -/
+constraints: here for the date ranges with fuel `len + 1`; for EVERY fuel above the number of constraints and both
+kinds of ranges: `evaluate_collapse_never_hangs` in `RTV.Props.C15Range`. -/
 theorem collapseDates_returns (rs : List DateRange) : ∃ r, collapseDates (rs.length + 1) rs = .ok r := by
   obtain ⟨r, hr, _⟩ := collapse_terminates DateRange.isOverlapping DateRange.collapseOverlapping rs.length rs (by omega)
   exact ⟨sortBy (fun r => (r.s : Int)) r, by simp [collapseDates, hr]; rfl⟩
@@ -601,7 +609,11 @@ times, …) satisfying `EvalHyp`, every TIMEX string `s` that `evaluate` returns
 * is an **instance of a candidate** `c`: same weekday / same month and day, and `c`'s own time if it has one;
 * lies inside at least one **supplied** date range `r0`;
 * and, when time ranges are supplied, has a time of day inside at least one **supplied** time range `tr0`.
-(Stated against what `is_overlapping` / `collapse_overlapping` really compute: collapsing only intersects.) -/
+(Stated against what `is_overlapping` / `collapse_overlapping` really compute: collapsing only intersects.)
+`EvalHyp.dne` demands at least one date range; for a candidate that is ONLY a time of day the date stage then returns
+nothing, so this theorem says nothing about such candidates — `evaluate_time_candidates_no_result` (result is empty)
+and `evaluate_time_candidates_sound` (no date range supplied: instance of the candidate inside a supplied time range)
+in `RTV.Props.C15Range` state their case. -/
 theorem evaluate_sound (cands constraints : List Str) (dranges : List DateRange) (tranges : List TimeRange)
     (hyp : EvalHyp cands constraints dranges tranges) (fuel : Nat) (out : List Str)
     (hout : evaluate genCfg fuel cands constraints = .ok out) :
